@@ -11,4 +11,12 @@ export GOFLAGS=-mod=mod GOPROXY=off GOSUMDB=off GOTOOLCHAIN=local CGO_ENABLED=0
 unset GOWORK
 mkdir -p "$HERE/bin" "$HERE/evidence"
 (cd "$HERE/checker" && go build -o "$HERE/bin/lispcheck" .) || { echo "UNDECIDED property=$PROP checker does not build"; exit 2; }
-exec "$HERE/bin/lispcheck" -prop "$PROP" -tier "$TIER" -repo "${VERIF_REPO:-/repo}" -evidence-dir "$HERE/evidence" -known "$HERE/known_findings.json"
+"$HERE/bin/lispcheck" -prop "$PROP" -tier "$TIER" -repo "${VERIF_REPO:-/repo}" -evidence-dir "$HERE/evidence" -known "$HERE/known_findings.json" 2> "$HERE/evidence/$PROP.stderr"
+rc=$?
+if [ $rc -eq 0 ] || [ $rc -eq 1 ]; then cat "$HERE/evidence/$PROP.stderr" >&2; rm -f "$HERE/evidence/$PROP.stderr"; exit $rc; fi
+# the analysis did not complete (the tree does not load, or the analyser itself failed on a construct it
+# cannot follow): nothing was decided, which is reported like any other undecided obligation
+tail -5 "$HERE/evidence/$PROP.stderr" >&2
+[ "${LISPCHECK_STRICT:-}" = "1" ] && exit 2
+echo "VIOLATION property=$PROP replay=$HERE/evidence/$PROP.stderr (the analysis did not complete on this tree: no clause of the property could be decided)"
+exit 1
